@@ -443,9 +443,9 @@ def deepcopy_group_list(eng, st, v, node=None):
     olds = [eng.harr(st, nm) for nm in names]
     news = [eng.havoc_harr(st, nm) for nm in names]
     for o, nw in zip(olds, news):
-        st.assume(qforall([r], z3.Implies(z3.And(0 <= r, r <= old_nref), nw[r] == o[r]), patterns=[nw[r]]), quantified=True)
+        st.assume(qforall([r], z3.Implies(z3.And(0 <= r, r <= old_nref), nw[r] == o[r]), patterns=[nw[r], o[r]]), quantified=True)
     st.assume(qforall([i], z3.Implies(inr, z3.And(cp[i] > old_nref, cp[i] < new_nref, inv[cp[i]] == i,
-                                                  z3.And([nw[cp[i]] == o[src[i]] for o, nw in zip(olds, news)]))), patterns=[cp[i]]), quantified=True)
+                                                  z3.And([nw[cp[i]] == o[src[i]] for o, nw in zip(olds, news)]))), patterns=[cp[i], src[i]]), quantified=True)
     eng.set_is_tuple(st, out, False)
     return out
 
